@@ -1,7 +1,8 @@
 (* C11 proofs: Merkle proof checks (Model/Proof.v) against the specification of virtualised trees
    (Spec/MerkleProof.v).  Completeness of check_proof / check_block_header_proof for proofs built by
    pruning, collision-relative soundness, and the meaning of the account-state hash comparison.
-   Helper lemmas carry the prefix mp_. *)
+   Helper lemmas carry the prefix mp_.  Sections 5 and 6 (prefix mg_) redo completeness and soundness for
+   original trees of ANY cell types - nested Merkle proofs / updates, pruned branches of mask 2^j. *)
 From Coq Require Import NArith ZArith List Bool Lia.
 From PTQ Require Import Base.Result Base.Bytes Base.Bits Model.Cell Model.Proof
   Spec.CellRepr Spec.CellWf Spec.MerkleProof Proofs.CellOrd Proofs.CellExotic.
@@ -665,3 +666,699 @@ Section Sound.
       + rewrite !map_length. exact Hlen.
   Qed.
 End Sound.
+
+From Coq Require Import ZifyBool ZifyNat ZifyN.
+
+(* ------------------------------------------------------------------ *)
+(* 5. completeness for original trees of any cell types (nested)       *)
+(*    helper lemmas carry the prefix mg_                               *)
+(* ------------------------------------------------------------------ *)
+Lemma mg_lt_pow2 m k : (forall b, k <= b -> N.testbit m b = false) -> m < 2 ^ k.
+Proof.
+  intro Hb. destruct (N.lt_ge_cases m (2 ^ k)) as [Hlt|Hge]; [exact Hlt|exfalso].
+  assert (Hpos : 0 < m). { pose proof (N.pow_nonzero 2 k ltac:(lia)). lia. }
+  apply N.log2_le_pow2 in Hge; [|exact Hpos].
+  pose proof (N.bit_log2 m ltac:(lia)) as Hbit. rewrite (Hb _ Hge) in Hbit. discriminate.
+Qed.
+
+Lemma mg_testbit_small m k b : m < 2 ^ k -> k <= b -> N.testbit m b = false.
+Proof.
+  intros Hm Hb. destruct (N.eq_dec m 0) as [->|Hne]; [apply N.bits_0|].
+  apply N.bits_above_log2. apply N.log2_lt_pow2 in Hm; lia.
+Qed.
+
+Lemma mg_b_refl x c : x = x || (x && c).
+Proof. destruct x, c; reflexivity. Qed.
+
+Lemma mg_b_or x xt y yt c : x = xt || (x && c) -> y = yt || (y && c) ->
+  x || y = (xt || yt) || ((x || y) && c).
+Proof. destruct x, xt, y, yt, c; cbn; intros; congruence. Qed.
+
+Lemma mg_b_weaken x xt c c' : (c' = true -> c = true) -> x = xt || (x && c') -> x = xt || (x && c).
+Proof.
+  intros Hc Hx. destruct c'.
+  - rewrite (Hc eq_refl). exact Hx.
+  - rewrite andb_false_r, orb_false_r in Hx. subst xt. apply mg_b_refl.
+Qed.
+
+(* the level mask of a virtualised node, j Merkle cells deep, against the original's: equal, except
+   that bit j may have been added (by pruned branches of mask 2^j, j <= 2) *)
+Definition mg_mrel (j : nat) (mv mt : N) : Prop :=
+  forall b, N.testbit mv b = N.testbit mt b || (N.testbit mv b && ((b =? N.of_nat j) && (j <=? 2)%nat)).
+
+Lemma mg_mrel_refl j m : mg_mrel j m m.
+Proof. intro b. apply mg_b_refl. Qed.
+
+Lemma mg_mrel_below j mv mt b : mg_mrel j mv mt -> (b < j)%nat ->
+  N.testbit mv (N.of_nat b) = N.testbit mt (N.of_nat b).
+Proof.
+  intros Hr Hb. specialize (Hr (N.of_nat b)).
+  assert (E : (N.of_nat b =? N.of_nat j) = false) by (apply N.eqb_neq; lia).
+  rewrite E in Hr. cbn [andb] in Hr. rewrite andb_false_r, orb_false_r in Hr. exact Hr.
+Qed.
+
+Lemma mg_mrel_le7 j mv mt : mg_mrel j mv mt -> mt <= 7 -> mv <= 7.
+Proof.
+  intros Hr Hm. assert (Hlt : mv < 2 ^ 3); [|change (2 ^ 3) with 8 in Hlt; lia].
+  apply mg_lt_pow2. intros b Hb. specialize (Hr b).
+  rewrite (mg_testbit_small mt 3 b) in Hr by (change (2 ^ 3) with 8; lia). cbn [orb] in Hr.
+  destruct (N.eqb_spec b (N.of_nat j)) as [E|_]; [|rewrite andb_false_r in Hr; exact Hr].
+  destruct (Nat.leb_spec j 2) as [Hj|_]; [lia|rewrite andb_false_r in Hr; exact Hr].
+Qed.
+
+Lemma mg_mrel_root mv : mg_mrel 0 mv 0 -> mv <= 1.
+Proof.
+  intro Hr. assert (Hlt : mv < 2 ^ 1); [|change (2 ^ 1) with 2 in Hlt; lia].
+  apply mg_lt_pow2. intros b Hb. specialize (Hr b). rewrite N.bits_0 in Hr. cbn [orb] in Hr.
+  assert (E : (b =? N.of_nat 0) = false) by (apply N.eqb_neq; lia).
+  rewrite E in Hr. cbn [andb] in Hr. rewrite andb_false_r in Hr. exact Hr.
+Qed.
+
+Lemma mg_low_mask_S m l : N.testbit m (N.of_nat l) = false -> low_mask m (S l) = low_mask m l.
+Proof.
+  intro Hb. unfold low_mask. rewrite !N.sub_1_r, <- !N.ones_equiv.
+  apply N.bits_inj. intro k. rewrite !N.land_spec.
+  destruct (N.lt_ge_cases k (N.of_nat l)) as [Hlt|Hge].
+  - rewrite !N.ones_spec_low by lia. reflexivity.
+  - destruct (N.eq_dec k (N.of_nat l)) as [->|Hne].
+    + rewrite Hb. reflexivity.
+    + rewrite !N.ones_spec_high by lia. rewrite !andb_false_r. reflexivity.
+Qed.
+
+(* which mask bits of the children a cell's mask accounts for *)
+Definition mg_cover (ty : Z) (m : N) (rs : list cell) : Prop :=
+  forall b r, In r rs -> N.testbit m (N.of_nat b) = false ->
+    N.testbit (s_mask r) (N.of_nat (if is_merkle ty then S b else b)) = false.
+
+Lemma mg_cover_wf ty bits rs : wf_exotic (Cell ty bits rs) = true ->
+  mg_cover ty (s_mask (Cell ty bits rs)) rs.
+Proof.
+  intro Hwf. destruct (ex_wf_inv _ _ _ Hwf) as (_ & _ & _ & _ & Hty).
+  destruct Hty as [E|[(E & Ers & _)|[(E & Ers)|[(E & Ers)|(E & Ers)]]]]; subst ty; intros b r Hin Hb.
+  - change (is_merkle ty_ordinary) with false. cbv iota.
+    rewrite ex_s_mask_ord, ex_fold_lor_testbit in Hb.
+    destruct (N.testbit (s_mask r) (N.of_nat b)) eqn:E; [|reflexivity].
+    assert (Hex : existsb (fun r => N.testbit (s_mask r) (N.of_nat b)) rs = true).
+    { apply existsb_exists. exists r. split; assumption. }
+    congruence.
+  - subst rs. destruct Hin.
+  - subst rs. destruct Hin.
+  - destruct rs as [|r0 [|r1 rs]]; try discriminate.
+    destruct Hin as [<-|[]]. change (is_merkle ty_mproof) with true. cbv iota.
+    rewrite ex_s_mask_mproof, N.shiftr_spec' in Hb.
+    replace (N.of_nat (S b)) with (N.of_nat b + 1) by lia. exact Hb.
+  - destruct rs as [|r0 [|r1 [|r2 rs]]]; try discriminate.
+    change (is_merkle ty_mupdate) with true. cbv iota.
+    rewrite ex_s_mask_mupdate, N.shiftr_spec', N.lor_spec in Hb.
+    apply orb_false_elim in Hb. destruct Hb as [Hb0 Hb1].
+    replace (N.of_nat (S b)) with (N.of_nat b + 1) by lia.
+    destruct Hin as [<-|[<-|[]]]; assumption.
+Qed.
+
+Lemma mg_mask_node ty bits vs ts j :
+  wf_exotic (Cell ty bits ts) = true ->
+  Forall2 (fun v t => mg_mrel (if is_merkle ty then S j else j) (s_mask v) (s_mask t)) vs ts ->
+  mg_mrel j (s_mask (Cell ty bits vs)) (s_mask (Cell ty bits ts)).
+Proof.
+  intros Hwf HF. destruct (ex_wf_inv _ _ _ Hwf) as (_ & _ & _ & _ & Hty).
+  destruct Hty as [E|[(E & Ers & _)|[(E & Ers)|[(E & Ers)|(E & Ers)]]]]; subst ty.
+  - change (is_merkle ty_ordinary) with false in HF. cbv iota in HF.
+    rewrite !ex_s_mask_ord. clear Hwf.
+    induction HF as [|v t vs ts Hvt _ IH]; cbn [fold_right]; [apply mg_mrel_refl|].
+    intro b. rewrite !N.lor_spec. apply mg_b_or; [apply Hvt|apply IH].
+  - rewrite !ex_s_mask_pruned. apply mg_mrel_refl.
+  - subst ts. inversion HF; subst. apply mg_mrel_refl.
+  - destruct ts as [|t0 [|t1 ts]]; try discriminate.
+    inversion HF as [|v0 ? vs0 ? Hr0 HF0]; subst. inversion HF0; subst.
+    change (is_merkle ty_mproof) with true in Hr0. cbv iota in Hr0.
+    rewrite !ex_s_mask_mproof. intro b. rewrite !N.shiftr_spec'.
+    apply (mg_b_weaken _ _ _ ((b + 1 =? N.of_nat (S j)) && (S j <=? 2)%nat)); [|apply Hr0].
+    intro Hc. apply andb_prop in Hc. destruct Hc as [H1 H2].
+    apply N.eqb_eq in H1. apply Nat.leb_le in H2.
+    apply andb_true_intro. split; [apply N.eqb_eq; lia|apply Nat.leb_le; lia].
+  - destruct ts as [|t0 [|t1 [|t2 ts]]]; try discriminate.
+    inversion HF as [|v0 ? vs0 ? Hr0 HF0]; subst.
+    inversion HF0 as [|v1 ? vs1 ? Hr1 HF1]; subst. inversion HF1; subst.
+    change (is_merkle ty_mupdate) with true in Hr0, Hr1. cbv iota in Hr0, Hr1.
+    rewrite !ex_s_mask_mupdate. intro b. rewrite !N.shiftr_spec', !N.lor_spec.
+    apply (mg_b_weaken _ _ _ ((b + 1 =? N.of_nat (S j)) && (S j <=? 2)%nat));
+      [|apply mg_b_or; [apply Hr0|apply Hr1]].
+    intro Hc. apply andb_prop in Hc. destruct Hc as [H1 H2].
+    apply N.eqb_eq in H1. apply Nat.leb_le in H2.
+    apply andb_true_intro. split; [apply N.eqb_eq; lia|apply Nat.leb_le; lia].
+Qed.
+
+Lemma mg_wf_node ty bits vs ts :
+  wf_exotic (Cell ty bits ts) = true -> length vs = length ts -> forallb wf_exotic vs = true ->
+  s_mask (Cell ty bits vs) <= 7 -> (ty =? ty_pruned)%Z = false ->
+  wf_exotic (Cell ty bits vs) = true.
+Proof.
+  intros Hwf Hlen Hvs Hm Hp. cbn [wf_exotic] in Hwf |- *. rewrite Hp in Hwf |- *.
+  apply andb_prop in Hwf. destruct Hwf as [Hwf HE].
+  apply andb_prop in Hwf. destruct Hwf as [Hwf HD].
+  apply andb_prop in Hwf. destruct Hwf as [Hwf HC].
+  apply andb_prop in Hwf. destruct Hwf as [HA HB].
+  rewrite Hlen, HA, HB, Hvs, HE, (proj2 (N.leb_le _ _) Hm). reflexivity.
+Qed.
+
+Lemma mg_wf_pruned bits j : (j <= 2)%nat -> length bits = 288%nat ->
+  s_mask (Cell ty_pruned bits []) = 2 ^ N.of_nat j -> wf_exotic (Cell ty_pruned bits []) = true.
+Proof.
+  intros Hj Hl Hm. cbn [wf_exotic length forallb]. rewrite Hm, Hl.
+  destruct j as [|[|[|j]]]; [vm_compute; reflexivity..|lia].
+Qed.
+
+Section CompleteNested.
+  Variable H : list N -> list N.
+  Hypothesis H_len : forall m, length (H m) = 32%nat.
+  Hypothesis H_ok : forall m, bytes_ok (H m).
+
+  Lemma mg_hd_nonsig r l : N.testbit (s_mask r) (N.of_nat l) = false -> s_hd H r (S l) = s_hd H r l.
+  Proof.
+    destruct r as [ty bits rs]. intro Hb. destruct (Z.eqb_spec ty ty_pruned) as [->|Hne].
+    - rewrite !ex_s_hd_pruned. cbv zeta. rewrite (mg_low_mask_S _ _ Hb). reflexivity.
+    - apply Z.eqb_neq in Hne. apply ex_s_hd_nonsig; assumption.
+  Qed.
+
+  (* the depth of a well-shaped cell at ANY level is one more than its children's at that level *)
+  Lemma mg_depth_kids ty bits rs : (ty =? ty_pruned)%Z = false ->
+    mg_cover ty (s_mask (Cell ty bits rs)) rs ->
+    forall l, s_depth_at H (Cell ty bits rs) l = ex_depth_of (ex_kids H ty rs l).
+  Proof.
+    intros Hp Hc. unfold s_depth_at. induction l as [|l IHl].
+    - rewrite (ex_s_hd_np_0 H _ _ _ Hp). reflexivity.
+    - rewrite (ex_s_hd_np_S H _ _ _ _ Hp).
+      destruct (N.testbit (s_mask (Cell ty bits rs)) (N.of_nat l)) eqn:Hb; [reflexivity|].
+      rewrite IHl. f_equal. unfold ex_kids. apply map_ext_in. intros r Hin.
+      pose proof (Hc l r Hin Hb) as Hr. destruct (is_merkle ty); symmetry; apply mg_hd_nonsig; exact Hr.
+  Qed.
+
+  Lemma mg_depth_okb_intro ty bits rs :
+    (forall l, (l <= 3)%nat -> s_depth_at H (Cell ty bits rs) l <= 1023) ->
+    forallb (depth_okb H) rs = true -> depth_okb H (Cell ty bits rs) = true.
+  Proof.
+    intros Hd Hrs. cbn [depth_okb forallb]. rewrite Hrs.
+    rewrite (proj2 (N.leb_le _ _) (Hd 0%nat ltac:(lia))), (proj2 (N.leb_le _ _) (Hd 1%nat ltac:(lia))),
+      (proj2 (N.leb_le _ _) (Hd 2%nat ltac:(lia))), (proj2 (N.leb_le _ _) (Hd 3%nat ltac:(lia))).
+    reflexivity.
+  Qed.
+
+  (* what the construction of the proof needs to know about a virtualised node j Merkle cells deep *)
+  Definition mg_good (j : nat) (v t : cell) : Prop :=
+    (forall l, (l <= j)%nat -> s_hd H v l = s_hd H t l) /\
+    mg_mrel j (s_mask v) (s_mask t) /\
+    (forall l, s_depth_at H v l <= s_depth_at H t l) /\
+    wf_exotic v = true /\ depth_okb H v = true.
+
+  Lemma mg_good_refl j t : wf_exotic t = true -> depth_okb H t = true -> mg_good j t t.
+  Proof.
+    intros Hwf Hd. split; [reflexivity|]. split; [apply mg_mrel_refl|].
+    split; [intro l; lia|]. split; assumption.
+  Qed.
+
+  Lemma mg_prune_depth_hi j t l : (j <= 2)%nat -> (j < l)%nat -> s_depth_at H (s_prune H j t) l = 0.
+  Proof.
+    intros Hj Hl. pose proof (ex_prune_mask H j t Hj) as Hpm.
+    unfold s_depth_at. unfold s_prune in Hpm |- *. rewrite ex_s_hd_pruned. cbv zeta. rewrite Hpm.
+    assert (E : low_mask (2 ^ N.of_nat j) l = 2 ^ N.of_nat j).
+    { rewrite ex_low_mask_mod. apply N.mod_small. apply N.pow_lt_mono_r; lia. }
+    rewrite E, N.eqb_refl. reflexivity.
+  Qed.
+
+  Lemma mg_prune_good j t : (j <= 2)%nat -> s_mask t = 0 -> wf_exotic t = true ->
+    depth_okb H t = true -> mg_good j (s_prune H j t) t.
+  Proof.
+    intros Hj Hm Hwf Hd.
+    assert (Hd0 : forall l, (l <= 3)%nat -> s_depth_at H t l <= 1023).
+    { destruct t as [ty bits rs]. apply (ex_depth_okb_inv H _ _ _ Hd). }
+    destruct (ex_hash_mask0 H t Hm) as [x Hx].
+    assert (Hhl : length (s_hash_at H t 0) = 32%nat) by (rewrite Hx; apply H_len).
+    pose proof (ex_prune_mask H j t Hj) as Hpm.
+    assert (Hhd : forall l, (l <= j)%nat -> s_hd H (s_prune H j t) l = s_hd H t l).
+    { intros l Hl. apply (ex_prune_hd H H_len H_ok j t l Hl Hj Hm).
+      specialize (Hd0 0%nat ltac:(lia)). lia. }
+    assert (Hdep : forall l, s_depth_at H (s_prune H j t) l <= s_depth_at H t l).
+    { intro l. destruct (le_gt_dec l j) as [Hl|Hl].
+      - unfold s_depth_at. rewrite (Hhd l Hl). lia.
+      - rewrite (mg_prune_depth_hi j t l Hj Hl). lia. }
+    split; [exact Hhd|]. split; [|split; [exact Hdep|split]].
+    - rewrite Hpm, Hm. intro b. rewrite N.bits_0, N.pow2_bits_eqb. cbn [orb].
+      destruct (N.eqb_spec (N.of_nat j) b) as [<-|_]; [|reflexivity].
+      rewrite N.eqb_refl, (proj2 (Nat.leb_le j 2) Hj). reflexivity.
+    - unfold s_prune in Hpm |- *. apply (mg_wf_pruned _ j Hj); [|exact Hpm].
+      rewrite !app_length, !to_bits_length, ex_bytes_to_bits_length, Hhl. reflexivity.
+    - unfold s_prune in Hdep |- *. apply mg_depth_okb_intro; [|reflexivity].
+      intros l Hl. specialize (Hdep l). specialize (Hd0 l Hl). lia.
+  Qed.
+
+  Lemma mg_hd_node ty bits vs ts j :
+    (ty =? ty_pruned)%Z = false ->
+    Forall2 (fun v t => forall l, (l <= (if is_merkle ty then S j else j))%nat -> s_hd H v l = s_hd H t l)
+            vs ts ->
+    (forall b, (b < j)%nat -> N.testbit (s_mask (Cell ty bits vs)) (N.of_nat b)
+                              = N.testbit (s_mask (Cell ty bits ts)) (N.of_nat b)) ->
+    forall l, (l <= j)%nat -> s_hd H (Cell ty bits vs) l = s_hd H (Cell ty bits ts) l.
+  Proof.
+    intros Hp HF Hmask.
+    pose proof (ex_Forall2_length _ _ _ HF) as Hlen.
+    assert (Hkids : forall l, (l <= j)%nat -> ex_kids H ty vs l = ex_kids H ty ts l).
+    { intros l Hl. unfold ex_kids. clear Hmask Hlen.
+      induction HF as [|v t vs ts Hvt _ IH]; [reflexivity|].
+      cbn [map]. rewrite IH. rewrite Hvt; [reflexivity|]. destruct (is_merkle ty); lia. }
+    induction l as [|l IHl]; intro Hl.
+    - rewrite !(ex_s_hd_np_0 H _ _ _ Hp). rewrite Hkids by lia. rewrite Hlen. reflexivity.
+    - rewrite !(ex_s_hd_np_S H _ _ _ _ Hp).
+      rewrite (Hmask l ltac:(lia)).
+      rewrite (ex_low_mask_agree (s_mask (Cell ty bits vs)) (s_mask (Cell ty bits ts)) (S l))
+        by (intros b Hb; apply Hmask; lia).
+      rewrite Hkids by lia. rewrite Hlen. rewrite (IHl ltac:(lia)). reflexivity.
+  Qed.
+
+  Lemma mg_depth_node ty bits vs ts :
+    (ty =? ty_pruned)%Z = false ->
+    wf_exotic (Cell ty bits vs) = true -> wf_exotic (Cell ty bits ts) = true ->
+    Forall2 (fun v t => forall l, s_depth_at H v l <= s_depth_at H t l) vs ts ->
+    forall l, s_depth_at H (Cell ty bits vs) l <= s_depth_at H (Cell ty bits ts) l.
+  Proof.
+    intros Hp Hwv Hwt HF l.
+    rewrite (mg_depth_kids ty bits vs Hp (mg_cover_wf _ _ _ Hwv)).
+    rewrite (mg_depth_kids ty bits ts Hp (mg_cover_wf _ _ _ Hwt)).
+    rewrite !ex_depth_of_kids.
+    set (L := if is_merkle ty then S l else l).
+    assert (Hm : maxl (map (fun r => s_depth_at H r L) vs) <= maxl (map (fun r => s_depth_at H r L) ts)).
+    { apply mp_maxl_mono.
+      apply (mp_Forall2_impl (fun v t => forall l, s_depth_at H v l <= s_depth_at H t l)); [|exact HF].
+      intros a b Hab. apply Hab. }
+    destruct HF; lia.
+  Qed.
+
+  Lemma mg_Forall2_forallb {A B} (R : A -> B -> Prop) (p : A -> bool) l1 l2 :
+    (forall a b, R a b -> p a = true) -> Forall2 R l1 l2 -> forallb p l1 = true.
+  Proof.
+    intros HR HF. induction HF as [|a b l1 l2 Hab _ IH]; [reflexivity|].
+    cbn [forallb]. rewrite (HR a b Hab), IH. reflexivity.
+  Qed.
+
+  Lemma mg_node_good j ty bits vs ts :
+    wf_exotic (Cell ty bits ts) = true -> depth_okb H (Cell ty bits ts) = true ->
+    Forall2 (mg_good (if is_merkle ty then S j else j)) vs ts ->
+    mg_good j (Cell ty bits vs) (Cell ty bits ts).
+  Proof.
+    intros Hwf Hd HF.
+    destruct (ex_depth_okb_inv H _ _ _ Hd) as (Hd0 & _).
+    pose proof (ex_Forall2_length _ _ _ HF) as Hlen.
+    destruct (Z.eqb_spec ty ty_pruned) as [->|Hne].
+    { (* a pruned branch of the original has no children *)
+      destruct (ex_wf_inv _ _ _ Hwf) as (_ & Hlr & _ & _ & Hty).
+      assert (Ets : ts = []).
+      { destruct Hty as [E|[(_ & Ers & _)|[(E & _)|[(E & _)|(E & _)]]]]; try discriminate E. exact Ers. }
+      subst ts. inversion HF; subst. apply mg_good_refl; assumption. }
+    apply Z.eqb_neq in Hne.
+    set (j' := if is_merkle ty then S j else j) in *.
+    assert (Hmrel : mg_mrel j (s_mask (Cell ty bits vs)) (s_mask (Cell ty bits ts))).
+    { apply mg_mask_node; [exact Hwf|]. fold j'.
+      apply (mp_Forall2_impl (mg_good j')); [|exact HF]. intros a b (_ & Hr & _). exact Hr. }
+    destruct (ex_wf_inv _ _ _ Hwf) as (_ & _ & _ & Hm7 & _).
+    assert (Hwv : wf_exotic (Cell ty bits vs) = true).
+    { apply (mg_wf_node ty bits vs ts Hwf Hlen); [|apply (mg_mrel_le7 _ _ _ Hmrel Hm7)|exact Hne].
+      apply (mg_Forall2_forallb (mg_good j') _ vs ts); [|exact HF]. intros a b (_ & _ & _ & Hw & _). exact Hw. }
+    assert (Hdep : forall l, s_depth_at H (Cell ty bits vs) l <= s_depth_at H (Cell ty bits ts) l).
+    { apply (mg_depth_node ty bits vs ts Hne Hwv Hwf).
+      apply (mp_Forall2_impl (mg_good j')); [|exact HF]. intros a b (_ & _ & Hab & _). exact Hab. }
+    split; [|split; [exact Hmrel|split; [exact Hdep|split; [exact Hwv|]]]].
+    - apply (mg_hd_node ty bits vs ts j Hne).
+      + fold j'. apply (mp_Forall2_impl (mg_good j')); [|exact HF]. intros a b (Hab & _). exact Hab.
+      + intros b Hb. apply (mg_mrel_below j _ _ b Hmrel Hb).
+    - apply mg_depth_okb_intro.
+      + intros l Hl. specialize (Hdep l). specialize (Hd0 l Hl). lia.
+      + apply (mg_Forall2_forallb (mg_good j') _ vs ts); [|exact HF]. intros a b (_ & _ & _ & _ & Hok). exact Hok.
+  Qed.
+
+  Lemma mg_virt_good : forall t, wf_exotic t = true -> depth_okb H t = true ->
+    forall j v, virt_gen H j v t -> mg_good j v t.
+  Proof.
+    induction t as [ty bits ts IH] using ex_cell_ind. intros Hwf Hd j v Hv.
+    inversion Hv as [j0 t0|j0 t0 Hj Hm|j0 ty0 bits0 vs ts0 HF]; subst.
+    - apply mg_good_refl; assumption.
+    - apply mg_prune_good; assumption.
+    - apply mg_node_good; [exact Hwf|exact Hd|].
+      destruct (ex_wf_inv _ _ _ Hwf) as (_ & _ & Hwts & _).
+      destruct (ex_depth_okb_inv H _ _ _ Hd) as (_ & Hdts).
+      set (j' := if is_merkle ty then S j else j) in *. clearbody j'.
+      clear Hv Hwf Hd.
+      induction HF as [|v t vs ts Hvt _ IH']; constructor.
+      + cbn [forallb] in Hwts, Hdts.
+        apply andb_prop in Hwts. destruct Hwts as [Hwt _].
+        apply andb_prop in Hdts. destruct Hdts as [Hdt _].
+        inversion IH as [|? ? Ht _]; subst. apply Ht; assumption.
+      + cbn [forallb] in Hwts, Hdts.
+        apply andb_prop in Hwts. destruct Hwts as [_ Hwts].
+        apply andb_prop in Hdts. destruct Hdts as [_ Hdts].
+        inversion IH; subst. apply IH'; assumption.
+  Qed.
+
+  (* the relation for ordinary trees is the special case j = 0, no Merkle cells *)
+  Lemma virt_of_gen : forall t v, virt_of H v t -> wf_ord t = true -> virt_gen H 0 v t.
+  Proof.
+    induction t as [ty bits ts IH] using ex_cell_ind. intros v Hv Hwf.
+    pose proof (mp_ord_mask _ Hwf) as Hm0.
+    pose proof Hwf as Hwf'. apply wf_ord_inv in Hwf'. destruct Hwf' as (-> & _ & _ & Hrs).
+    inversion Hv as [t0|t0|bits0 vs ts0 HF]; subst.
+    - apply VG_same.
+    - apply VG_prune; [lia|exact Hm0].
+    - apply (VG_node H 0 ty_ordinary bits vs ts).
+      change (is_merkle ty_ordinary) with false. cbv iota.
+      clear Hv Hwf Hm0.
+      induction HF as [|v t vs ts Hvt _ IH']; constructor.
+      + cbn [forallb] in Hrs. apply andb_prop in Hrs. destruct Hrs as [Hr _].
+        inversion IH as [|? ? Ht _]; subst. apply Ht; assumption.
+      + cbn [forallb] in Hrs. apply andb_prop in Hrs. destruct Hrs as [_ Hrs].
+        inversion IH; subst. apply IH'; assumption.
+  Qed.
+
+  (* ---- the Merkle-proof cell over a virtualised tree ---- *)
+  Lemma mg_build_mproof v h d : wf_exotic v = true -> depth_okb H v = true -> s_mask v <= 1 ->
+    s_depth_at H v 1 <= 1022 -> length h = 32%nat -> bytes_ok h ->
+    exists kv k, build H v = Ok kv /\ get_hash kv 0 = Ok (s_hash_at H v 0) /\
+      build H (s_mproof v h d) = Ok k /\ k_ty k = ty_mproof /\
+      k_bits k = to_bits 8 3 ++ bytes_to_bits h ++ to_bits 16 d /\ k_refs k = [kv].
+  Proof.
+    intros Hwf Hdok Hm Hdep Hl Hok.
+    destruct (exotic_levels H H_len v Hwf Hdok) as (kv & Hkv & _ & Hlv).
+    destruct (Hlv 0%nat ltac:(lia)) as [Hgh _].
+    destruct (mp_mproof_data h d Hl Hok) as [Hlen _].
+    unfold s_mproof. set (bits := to_bits 8 3 ++ bytes_to_bits h ++ to_bits 16 d) in *.
+    assert (HwfM : wf_exotic (Cell ty_mproof bits [v]) = true) by (apply mp_wf_mproof; [lia|assumption..]).
+    assert (Hm0 : s_mask (Cell ty_mproof bits [v]) = 0)
+      by (rewrite ex_s_mask_mproof; apply mp_shiftr_le1; exact Hm).
+    assert (HdM : depth_okb H (Cell ty_mproof bits [v]) = true).
+    { apply mg_depth_okb_intro; [|cbn [forallb]; rewrite Hdok; reflexivity].
+      intros l _. unfold s_depth_at. rewrite (ex_s_hd_mask0 H _ l Hm0).
+      rewrite (ex_s_hd_np_0 H ty_mproof bits [v] eq_refl). cbn [snd].
+      rewrite ex_depth_of_kids. change (is_merkle ty_mproof) with true. cbv iota.
+      cbn [map maxl fold_right]. lia. }
+    destruct (exotic_levels H H_len _ HwfM HdM) as (k & Hk & _).
+    exists kv, k. split; [exact Hkv|]. split; [exact Hgh|]. split; [exact Hk|].
+    rewrite ex_build_eq in Hk. cbn [mapM'] in Hk. rewrite Hkv in Hk. cbn [bind] in Hk.
+    apply mp_mk_cell_inv in Hk. destruct Hk as (E1 & E2 & E3 & _). auto.
+  Qed.
+
+  Theorem proof_complete_nested : forall v t,
+    wf_exotic t = true -> depth_okb H t = true -> s_mask t = 0 -> s_depth_at H t 0 <= 1022 ->
+    virt_gen H 0 v t ->
+    exists k, build H (s_mproof v (s_hash_at H t 0) (s_depth_at H t 0)) = Ok k /\
+              check_proof k (s_hash_at H t 0) = Ok tt.
+  Proof using H H_len H_ok.
+    intros v t Hwf Hdok Hm0 Hd Hv.
+    destruct (mg_virt_good t Hwf Hdok 0%nat v Hv) as (Hhd & Hmrel & Hdep & Hwfv & Hdokv).
+    rewrite Hm0 in Hmrel. apply mg_mrel_root in Hmrel.
+    destruct (ex_hash_mask0 H t Hm0) as [x Hx].
+    assert (Hhl : length (s_hash_at H t 0) = 32%nat) by (rewrite Hx; apply H_len).
+    assert (Hhok : bytes_ok (s_hash_at H t 0)) by (rewrite Hx; apply H_ok).
+    assert (Hd1 : s_depth_at H v 1 <= 1022).
+    { specialize (Hdep 1%nat). unfold s_depth_at in Hdep |- *.
+      rewrite (ex_s_hd_mask0 H t 1 Hm0) in Hdep. unfold s_depth_at in Hd. lia. }
+    destruct (mg_build_mproof v (s_hash_at H t 0) (s_depth_at H t 0) Hwfv Hdokv Hmrel Hd1 Hhl Hhok)
+      as (kv & k & Hkv & Hgh & Hk & Hty & Hbits & Hrefs).
+    exists k. split; [exact Hk|].
+    unfold check_proof, k_data, k_ref. rewrite Hty, Hbits, Hrefs.
+    change (ty_mproof =? ty_mproof)%Z with true. cbn [negb nth_error bind].
+    destruct (mp_mproof_data (s_hash_at H t 0) (s_depth_at H t 0) Hhl Hhok) as [_ Hsl].
+    rewrite Hsl, mp_bytes_eqb_refl. cbn [negb]. rewrite Hgh. cbn [bind].
+    unfold s_hash_at. rewrite (Hhd 0%nat ltac:(lia)).
+    rewrite mp_bytes_eqb_refl. reflexivity.
+  Qed.
+
+  Theorem header_complete_nested : forall v t,
+    wf_exotic t = true -> depth_okb H t = true -> virt_gen H 0 v t ->
+    exists k, build H v = Ok k /\ check_block_header_proof k (s_hash_at H t 0) false = Ok None.
+  Proof using H H_len H_ok.
+    intros v t Hwf Hdok Hv.
+    destruct (mg_virt_good t Hwf Hdok 0%nat v Hv) as (Hhd & _ & _ & Hwfv & Hdokv).
+    destruct (exotic_levels H H_len v Hwfv Hdokv) as (k & Hk & _ & Hlv).
+    destruct (Hlv 0%nat ltac:(lia)) as [Hgh _].
+    exists k. split; [exact Hk|].
+    unfold check_block_header_proof. change (N.of_nat 0) with 0 in Hgh. rewrite Hgh. cbn [bind].
+    unfold s_hash_at. rewrite (Hhd 0%nat ltac:(lia)).
+    rewrite mp_bytes_eqb_refl. reflexivity.
+  Qed.
+End CompleteNested.
+
+(* ------------------------------------------------------------------ *)
+(* 6. soundness for original trees of any cell types (nested)          *)
+(* ------------------------------------------------------------------ *)
+Lemma mg_low_mask_big m l : m <= 7 -> (3 <= l)%nat -> low_mask m l = m.
+Proof.
+  intros Hm Hl. rewrite ex_low_mask_mod. apply N.mod_small.
+  assert (Hp : 2 ^ 3 <= 2 ^ N.of_nat l) by (apply N.pow_le_mono_r; lia).
+  change (2 ^ 3) with 8 in Hp. lia.
+Qed.
+
+Lemma mg_popcount_low m l : m <= 7 -> (popcount (low_mask m l) =? popcount m) = false ->
+  popcount (low_mask m l) < popcount m.
+Proof.
+  intros Hm.
+  assert (Hc : allb_below 8 (fun m => allb_below 3 (fun l =>
+            (popcount (low_mask m (N.to_nat l)) =? popcount m)
+            || (popcount (low_mask m (N.to_nat l)) <? popcount m))) = true) by (vm_compute; reflexivity).
+  destruct (le_gt_dec 3 l) as [Hl|Hl].
+  - rewrite mg_low_mask_big by assumption. rewrite N.eqb_refl. discriminate.
+  - pose proof (allb_below_spec _ _ Hc m ltac:(lia)) as Hc1. cbv beta in Hc1.
+    pose proof (allb_below_spec _ _ Hc1 (N.of_nat l) ltac:(lia)) as Hc2. cbv beta in Hc2.
+    rewrite Nat2N.id in Hc2. intro E. rewrite E in Hc2. cbn [orb] in Hc2. apply N.ltb_lt. exact Hc2.
+Qed.
+
+Lemma mg_eff_sig m l : lm_significant m (N.of_nat (ex_eff m l)) = true.
+Proof.
+  induction l as [|l IH]; [reflexivity|]. cbn [ex_eff].
+  destruct (N.testbit m (N.of_nat l)) eqn:E; [|exact IH]. rewrite ex_sig_S. exact E.
+Qed.
+
+Lemma mg_eff_le m l : (ex_eff m l <= l)%nat.
+Proof. induction l as [|l IH]; [cbn; lia|]. cbn [ex_eff]. destruct (N.testbit m (N.of_nat l)); lia. Qed.
+
+Lemma mg_eff_cases m l :
+  ex_eff m l = 0%nat \/ exists e', ex_eff m l = S e' /\ N.testbit m (N.of_nat e') = true.
+Proof.
+  induction l as [|l IH]; [left; reflexivity|]. cbn [ex_eff].
+  destruct (N.testbit m (N.of_nat l)) eqn:E; [right; exists l; auto|exact IH].
+Qed.
+
+Lemma mg_low_mask_bounds m e : N.testbit m (N.of_nat e) = true ->
+  2 ^ N.of_nat e <= low_mask m (S e) < 2 ^ N.of_nat (S e).
+Proof.
+  intro Hb. split.
+  - destruct (N.le_gt_cases (2 ^ N.of_nat e) (low_mask m (S e))) as [Hle|Hgt]; [exact Hle|exfalso].
+    pose proof (mg_testbit_small _ (N.of_nat e) (N.of_nat e) Hgt ltac:(lia)) as Hf.
+    unfold low_mask in Hf. rewrite N.sub_1_r, <- N.ones_equiv, N.land_spec, Hb, N.ones_spec_low in Hf by lia.
+    discriminate.
+  - rewrite ex_low_mask_mod. apply N.mod_lt. apply N.pow_nonzero. lia.
+Qed.
+
+Lemma mg_eff_inj mv mt l l2 :
+  low_mask mv (ex_eff mv l) = low_mask mt (ex_eff mt l2) -> ex_eff mv l = ex_eff mt l2.
+Proof.
+  intro E.
+  destruct (mg_eff_cases mv l) as [E1|(a & E1 & Ha)], (mg_eff_cases mt l2) as [E2|(b & E2 & Hb)];
+    rewrite E1, E2 in E |- *.
+  - reflexivity.
+  - rewrite ex_low_mask_0 in E. pose proof (mg_low_mask_bounds mt b Hb) as [Hlo _].
+    pose proof (N.pow_nonzero 2 (N.of_nat b) ltac:(lia)). lia.
+  - rewrite ex_low_mask_0 in E. pose proof (mg_low_mask_bounds mv a Ha) as [Hlo _].
+    pose proof (N.pow_nonzero 2 (N.of_nat a) ltac:(lia)). lia.
+  - pose proof (mg_low_mask_bounds mv a Ha) as [Hlo1 Hhi1].
+    pose proof (mg_low_mask_bounds mt b Hb) as [Hlo2 Hhi2]. rewrite E in Hlo1, Hhi1.
+    assert (H1 : 2 ^ N.of_nat a < 2 ^ N.of_nat (S b)) by lia.
+    assert (H2 : 2 ^ N.of_nat b < 2 ^ N.of_nat (S a)) by lia.
+    apply N.pow_lt_mono_r_iff in H1; [|lia]. apply N.pow_lt_mono_r_iff in H2; [|lia]. lia.
+Qed.
+
+Lemma mg_d1_inj a ex m a' ex' m' : (a <= 4)%nat -> (a' <= 4)%nat ->
+  s_d1 a ex m = s_d1 a' ex' m' -> a = a' /\ ex = ex' /\ m = m'.
+Proof. unfold s_d1. intros Ha Ha' E. destruct ex, ex'; cbn [b2n] in E; repeat split; lia. Qed.
+
+(* among the non-pruned cell types the exotic flag and the reference count determine the type *)
+Lemma mg_ty_det ty bits rs ty' bits' rs' :
+  wf_exotic (Cell ty bits rs) = true -> wf_exotic (Cell ty' bits' rs') = true ->
+  (ty =? ty_pruned)%Z = false -> (ty' =? ty_pruned)%Z = false ->
+  is_exotic ty = is_exotic ty' -> length rs = length rs' -> ty = ty'.
+Proof.
+  intros Hw Hw' Hp Hp' Hex Hlen.
+  destruct (ex_wf_inv _ _ _ Hw) as (_ & _ & _ & _ & Hty).
+  destruct (ex_wf_inv _ _ _ Hw') as (_ & _ & _ & _ & Hty').
+  destruct Hty as [E|[(E & _)|[(E & Ers)|[(E & Ers)|(E & Ers)]]]]; subst ty; try discriminate Hp;
+  destruct Hty' as [E'|[(E' & _)|[(E' & Ers')|[(E' & Ers')|(E' & Ers')]]]]; subst ty'; try discriminate Hp';
+  try reflexivity; try discriminate Hex; subst; cbn [length] in *; congruence.
+Qed.
+
+Lemma mg_map_eq_Forall2 {A B} (f f' : A -> B) (g g' : A -> B) : forall l1 l2,
+  (forall a, In a l1 -> f' a = f a) -> (forall b, In b l2 -> g' b = g b) ->
+  map f l1 = map g l2 -> Forall2 (fun a b => f' a = g' b) l1 l2.
+Proof.
+  induction l1 as [|a l1 IH]; intros [|b l2] Hf Hg E; cbn [map] in E; try discriminate; [constructor|].
+  injection E as E0 E. constructor.
+  - rewrite (Hf a (or_introl eq_refl)), (Hg b (or_introl eq_refl)). exact E0.
+  - apply IH; [intros x Hx; apply Hf; right; exact Hx|intros x Hx; apply Hg; right; exact Hx|exact E].
+Qed.
+
+Section SoundNested.
+  Variable H : list N -> list N.
+  Hypothesis H_len : forall m, length (H m) = 32%nat.
+
+  (* every level hash of a well-formed cell has 32 bytes *)
+  Lemma mg_hash_len c l : wf_exotic c = true -> length (s_hash_at H c l) = 32%nat.
+  Proof.
+    destruct c as [ty bits rs]. intro Hwf.
+    destruct (ex_wf_inv _ _ _ Hwf) as (_ & _ & _ & Hm & Hty).
+    destruct (Z.eqb_spec ty ty_pruned) as [->|Hne].
+    - destruct Hty as [E|[(_ & _ & _ & Hbl)|[(E & _)|[(E & _)|(E & _)]]]]; try discriminate E.
+      unfold s_hash_at. rewrite ex_s_hd_pruned. cbv zeta.
+      set (m := s_mask (Cell ty_pruned bits rs)) in *.
+      destruct (popcount (low_mask m l) =? popcount m) eqn:E; cbn [fst]; [apply H_len|].
+      pose proof (mg_popcount_low m l Hm E) as Hlt.
+      assert (Hdl : length (bits_to_bytes (s_pad bits)) = (2 + 34 * N.to_nat (popcount m))%nat).
+      { rewrite (mp_b2b_len _ _ (mp_pad_len bits)), Hbl.
+        replace (16 + 272 * N.to_nat (popcount m) + 7)%nat
+          with (7 + (2 + 34 * N.to_nat (popcount m)) * 8)%nat by lia.
+        rewrite Nat.div_add by lia. reflexivity. }
+      unfold slice. rewrite firstn_length, skipn_length, Hdl. lia.
+    - apply Z.eqb_neq in Hne. unfold s_hash_at. induction l as [|l IH].
+      + rewrite (ex_s_hd_np_0 H _ _ _ Hne). apply H_len.
+      + rewrite (ex_s_hd_np_S H _ _ _ _ Hne). destruct (N.testbit _ _); [apply H_len|exact IH].
+  Qed.
+
+  (* the hash of a non-pruned cell at any level, as one application of H *)
+  Lemma mg_hash_form ty bits rs l : (ty =? ty_pruned)%Z = false ->
+    s_hash_at H (Cell ty bits rs) l =
+    H ([s_d1 (length rs) (is_exotic ty)
+             (low_mask (s_mask (Cell ty bits rs)) (ex_eff (s_mask (Cell ty bits rs)) l));
+        s_d2 (length bits)]
+       ++ match ex_eff (s_mask (Cell ty bits rs)) l with
+          | O => bits_to_bytes (s_pad bits)
+          | S e' => s_hash_at H (Cell ty bits rs) e'
+          end ++ ex_tail (ex_kids H ty rs (ex_eff (s_mask (Cell ty bits rs)) l))).
+  Proof.
+    intro Hp. unfold s_hash_at at 1. rewrite (ex_s_hd_eff H ty bits rs l Hp).
+    rewrite (ex_s_hd_sig H ty bits rs _ Hp (mg_eff_sig _ _)). reflexivity.
+  Qed.
+
+  (* a child answers the parent's level and the parent's greatest significant level below it alike *)
+  Lemma mg_kid_eff ty m rs r l : mg_cover ty m rs -> In r rs ->
+    s_hd H r (if is_merkle ty then S l else l)
+    = s_hd H r (if is_merkle ty then S (ex_eff m l) else ex_eff m l).
+  Proof.
+    intros Hc Hin. induction l as [|l IH]; [reflexivity|]. cbn [ex_eff].
+    destruct (N.testbit m (N.of_nat l)) eqn:Hb; [reflexivity|].
+    rewrite <- IH. pose proof (Hc l r Hin Hb) as Hr.
+    destruct (is_merkle ty); apply (mg_hd_nonsig H); exact Hr.
+  Qed.
+
+  Lemma mg_node_inj ty bits vs ty' bits' ts :
+    wf_exotic (Cell ty bits vs) = true -> wf_exotic (Cell ty' bits' ts) = true ->
+    (ty =? ty_pruned)%Z = false -> (ty' =? ty_pruned)%Z = false ->
+    forall n l, (l < n)%nat ->
+      s_hash_at H (Cell ty bits vs) l = s_hash_at H (Cell ty' bits' ts) l ->
+      collision H \/
+      (ty = ty' /\ bits = bits' /\
+       Forall2 (fun a b => s_hash_at H a (if is_merkle ty then S l else l)
+                           = s_hash_at H b (if is_merkle ty then S l else l)) vs ts).
+  Proof.
+    intros Hwv Hwt Hpv Hpt.
+    destruct (ex_wf_inv _ _ _ Hwv) as (_ & Hlv & Hwvs & _).
+    destruct (ex_wf_inv _ _ _ Hwt) as (_ & Hlt & Hwts & _).
+    induction n as [|n IHn]; intros l Hl Hh; [lia|].
+    rewrite (mg_hash_form ty bits vs l Hpv), (mg_hash_form ty' bits' ts l Hpt) in Hh.
+    set (mv := s_mask (Cell ty bits vs)) in *. set (mt := s_mask (Cell ty' bits' ts)) in *.
+    match type of Hh with H ?m1 = H ?m2 =>
+      destruct (list_eq_dec N.eq_dec m1 m2) as [E|NE];
+        [|left; exists m1, m2; split; [exact NE|exact Hh]] end.
+    clear Hh. cbn [app] in E. injection E as E1 E2 E3.
+    apply mg_d1_inj in E1; [|assumption..]. destruct E1 as (Hlen & Hex & Hlm).
+    pose proof (mg_eff_inj mv mt l l Hlm) as Het.
+    assert (Ety : ty = ty') by (apply (mg_ty_det ty bits vs ty' bits' ts); assumption).
+    subst ty'. rewrite <- Het in E3.
+    pose proof (mg_eff_le mv l) as Hel.
+    assert (Hsplit : collision H \/
+              (bits = bits' /\ ex_tail (ex_kids H ty vs (ex_eff mv l)) = ex_tail (ex_kids H ty ts (ex_eff mv l)))).
+    { destruct (ex_eff mv l) as [|e'] eqn:Ee.
+      - apply mp_pad_inj in E3; [|exact E2]. right. exact E3.
+      - apply mp_app_inv_len in E3; [|rewrite !mg_hash_len by assumption; reflexivity].
+        destruct E3 as [Hh' Etail].
+        destruct (IHn e' ltac:(lia) Hh') as [Hc|(_ & Eb & _)]; [left; exact Hc|right; auto]. }
+    destruct Hsplit as [Hc|[Eb Etail]]; [left; exact Hc|right].
+    split; [reflexivity|]. split; [exact Eb|].
+    rewrite !ex_tail_kids in Etail.
+    apply mp_app_inv_len in Etail.
+    2:{ rewrite !map_map.
+        rewrite (mp_concat_len (fun r => be_bytes 2 (s_depth_at H r _)) 2 vs (fun x => be_bytes_length 2 _)).
+        rewrite (mp_concat_len (fun r => be_bytes 2 (s_depth_at H r _)) 2 ts (fun x => be_bytes_length 2 _)).
+        rewrite Hlen. reflexivity. }
+    destruct Etail as [_ Ehs].
+    apply (mp_concat_inj 32) in Ehs.
+    - revert Ehs. apply mg_map_eq_Forall2.
+      + intros a Ha. unfold s_hash_at. f_equal.
+        apply (mg_kid_eff ty mv vs a l (mg_cover_wf _ _ _ Hwv) Ha).
+      + intros b Hb. unfold s_hash_at. f_equal. rewrite Het.
+        apply (mg_kid_eff ty mt ts b l (mg_cover_wf _ _ _ Hwt) Hb).
+    - apply Forall_map. apply Forall_forall. intros x Hx. apply mg_hash_len.
+      apply (proj1 (forallb_forall _ _) Hwvs x Hx).
+    - apply Forall_map. apply Forall_forall. intros x Hx. apply mg_hash_len.
+      apply (proj1 (forallb_forall _ _) Hwts x Hx).
+    - rewrite !map_length. exact Hlen.
+  Qed.
+
+  Definition mg_snd (v : cell) : Prop :=
+    wf_exotic v = true -> forall j t, wf_exotic t = true ->
+      s_hash_at H v j = s_hash_at H t j -> covers_gen H j v t \/ collision H.
+
+  Lemma mg_children j : forall vs ts, Forall mg_snd vs ->
+    forallb wf_exotic vs = true -> forallb wf_exotic ts = true ->
+    Forall2 (fun a b => s_hash_at H a j = s_hash_at H b j) vs ts ->
+    Forall2 (covers_gen H j) vs ts \/ collision H.
+  Proof.
+    intros vs ts HF Hwv Hwt HE. revert HF Hwv Hwt.
+    induction HE as [|v t vs ts Hvt _ IH]; intros HF Hwv Hwt; [left; constructor|].
+    cbn [forallb] in Hwv, Hwt.
+    apply andb_prop in Hwv. destruct Hwv as [Hv Hwv].
+    apply andb_prop in Hwt. destruct Hwt as [Ht Hwt].
+    inversion HF as [|? ? Hsv HF']; subst.
+    destruct (Hsv Hv j t Ht Hvt) as [Hc|Hc]; [|right; exact Hc].
+    destruct (IH HF' Hwv Hwt) as [Hcs|Hcs]; [|right; exact Hcs].
+    left. constructor; assumption.
+  Qed.
+
+  Theorem virtual_sound_nested : forall v j t, wf_exotic v = true -> wf_exotic t = true ->
+    s_hash_at H v j = s_hash_at H t j -> covers_gen H j v t \/ collision H.
+  Proof using H H_len.
+    intros v j t Hwv. revert j t. revert Hwv. change (mg_snd v).
+    induction v as [ty bits vs IH] using ex_cell_ind. intros Hwv j [ty' bits' ts] Hwt Hh.
+    destruct (ty =? ty_pruned)%Z eqn:Hpv.
+    { left. apply CG_hash; [cbn [is_prunedc]; rewrite Hpv; reflexivity|exact Hh]. }
+    destruct (ty' =? ty_pruned)%Z eqn:Hpt.
+    { left. apply CG_hash; [cbn [is_prunedc]; rewrite Hpt; apply orb_true_r|exact Hh]. }
+    destruct (mg_node_inj ty bits vs ty' bits' ts Hwv Hwt Hpv Hpt (S j) j ltac:(lia) Hh)
+      as [Hc|(Ety & Eb & HF)]; [right; exact Hc|].
+    subst ty' bits'.
+    destruct (ex_wf_inv _ _ _ Hwv) as (_ & _ & Hwvs & _).
+    destruct (ex_wf_inv _ _ _ Hwt) as (_ & _ & Hwts & _).
+    destruct (mg_children _ vs ts IH Hwvs Hwts HF) as [Hcs|Hc]; [|right; exact Hc].
+    left. apply CG_node; assumption.
+  Qed.
+
+  (* end to end: a Merkle-proof cell over v that was built and accepted against the hash of t *)
+  Theorem accepted_sound_nested : forall bits v t k,
+    wf_exotic v = true -> depth_okb H v = true -> wf_exotic t = true ->
+    build H (Cell ty_mproof bits [v]) = Ok k -> check_proof k (s_hash_at H t 0) = Ok tt ->
+    covers_gen H 0 v t \/ collision H.
+  Proof using H H_len.
+    intros bits v t k Hwv Hdv Hwt Hb Hc.
+    destruct (exotic_levels H H_len v Hwv Hdv) as (kv & Hkv & _ & Hlv).
+    destruct (Hlv 0%nat ltac:(lia)) as [Hgh _]. change (N.of_nat 0) with 0 in Hgh.
+    rewrite ex_build_eq in Hb. cbn [mapM'] in Hb. rewrite Hkv in Hb. cbn [bind] in Hb.
+    apply mp_mk_cell_inv in Hb. destruct Hb as (_ & _ & Hrefs & _).
+    apply check_proof_inv in Hc. destruct Hc as (_ & _ & r & Hr & Hh).
+    unfold k_ref in Hr. rewrite Hrefs in Hr. cbn [nth_error] in Hr. injection Hr as <-.
+    rewrite Hgh in Hh. injection Hh as Hh.
+    apply virtual_sound_nested; assumption.
+  Qed.
+End SoundNested.
